@@ -68,6 +68,9 @@ def run(chk, repo, tier):
     from .c06 import disjoint_rules
     from .c20 import helper_rules
     disjoint_rules(Remap(chk, {'C06-f': 'C03-c'}), repo)
+    chk.clause('C03-k', 'segment fields multiply like embedded arrays: a one-element operand inherits the shape and offset of the other (mirror-image cases); the product is taken on the overlap', 3)
+    from .c06 import product_rules
+    product_rules(chk, repo, 'C03-k')
     helper_rules(Remap(chk, {'C20-d': 'C03-h'}), repo)
 
     from .extra_rules import plane_slice_rule
